@@ -128,6 +128,27 @@ def parse_cbmc_json(out):
             msgs.append(item.get('messageType') + ': ' + str(item.get('messageText')))
     return results, status, '\n'.join(msgs)
 
+def parse_cbmc_text(out):
+    """Plain-text UI (used where --json-ui makes cbmc 6.11 abort while building the counterexample trace of the canary:
+    simplify_member invariant on bit-field structs with the SMT back ends).  Same result shape as parse_cbmc_json."""
+    results = []
+    cur_file = cur_fn = None
+    seen = False
+    for line in out.splitlines():
+        m = re.match(r'^(\S+) function (\S+)$', line)
+        if m:
+            cur_file, cur_fn = m.group(1), m.group(2)
+            continue
+        m = re.match(r'^\[(\S+)\] (?:line (\d+) )?(.*): (SUCCESS|FAILURE|ERROR|UNKNOWN)$', line)
+        if m:
+            results.append({'property': m.group(1), 'description': m.group(3), 'status': m.group(4),
+                            'sourceLocation': {'file': cur_file, 'line': m.group(2), 'function': cur_fn}})
+        if line.startswith('VERIFICATION '):
+            seen = True
+    if not seen or not results:
+        return None, None, out[-2000:]
+    return results, None, ''
+
 def backend_flags(b):
     if b == 'sat':
         return []
@@ -205,7 +226,8 @@ def run_group(g, woven, scratch, want_trace=False):
     backends = g['backend'] if isinstance(g['backend'], list) else [g['backend']]
     last_reason = ''
     for be in backends:
-        cmd = ['cbmc', '--drop-unused-functions'] + checks + g['cbmc_flags'] + backend_flags(be) + ['--json-ui']
+        text_ui = g.get('ui') == 'text'
+        cmd = ['cbmc', '--drop-unused-functions'] + checks + g['cbmc_flags'] + backend_flags(be) + ([] if text_ui else ['--json-ui'])
         if want_trace:
             cmd += ['--trace']
         cmd += [b_gb]
@@ -218,7 +240,7 @@ def run_group(g, woven, scratch, want_trace=False):
         if rc == 'timeout':
             last_reason = 'timeout after %ds on %s' % (g['timeout'], be)
             continue
-        results, status, msgs = parse_cbmc_json(out)
+        results, status, msgs = parse_cbmc_text(out) if text_ui else parse_cbmc_json(out)
         if results is None:
             last_reason = 'no result from cbmc on %s (rc=%s): %s' % (be, rc, (msgs or out)[-1200:])
             continue
